@@ -3,10 +3,12 @@ package c14
 import (
 	"context"
 	"fmt"
+	"os"
 	"runtime"
 	"strings"
 	"sync"
 	"testing"
+	"time"
 
 	"verif/kit"
 	"verif/sched"
@@ -165,7 +167,16 @@ func TestRace(t *testing.T) {
 		iters = 150
 	}
 	total := 0
-	for _, p := range Programs(kit.Tier(nil)) {
+	progs := Programs(kit.Tier(nil))
+	// companion-only stress programs: many operations, to give real parallelism a
+	// chance inside single VM instructions (which the controlled scheduler treats as atomic)
+	stress := map[string]bool{}
+	for _, sp := range []Prog{fixedConsumers(8, 40000), multiConsumer(8, 20000)} {
+		stress[sp.Name] = true
+		progs = append(progs, sp)
+	}
+	progs = append(progs, multiConsumer(4, 1000), nativeGo(8))
+	for _, p := range progs {
 		prog, err := scriggo.Build(scriggo.Files{"main.go": []byte(p.Src)}, &scriggo.BuildOptions{AllowGoStmt: true, Packages: helperPkg})
 		if err != nil {
 			t.Fatalf("build %s: %v", p.Name, err)
@@ -180,7 +191,14 @@ func TestRace(t *testing.T) {
 		for _, procs := range []int{1, 4, 16} {
 			runtime.GOMAXPROCS(procs)
 			for _, withCtx := range []bool{false, true} {
-				for i := 0; i < iters; i++ {
+				n := iters
+				if stress[p.Name] {
+					if procs == 1 {
+						continue
+					}
+					n = 1 + iters/50 // long programs: a few runs each
+				}
+				for i := 0; i < n; i++ {
 					var mu sync.Mutex
 					var out strings.Builder
 					opts := &scriggo.RunOptions{Print: func(v any) {
@@ -193,7 +211,9 @@ func TestRace(t *testing.T) {
 						opts.Context, cancel = context.WithCancel(context.Background())
 					}
 					status := "exit 0"
-					func() {
+					finished := make(chan struct{})
+					go func() {
+						defer close(finished)
 						defer func() {
 							if r := recover(); r != nil {
 								status = fmt.Sprintf("host panic: %v", r)
@@ -203,6 +223,17 @@ func TestRace(t *testing.T) {
 							status = "run error: " + err.Error()
 						}
 					}()
+					select {
+					case <-finished:
+					case <-time.After(60 * time.Second):
+						// hang watchdog (the programs take microseconds): a free-running deadlock
+						fam := p.Name
+						if k := strings.IndexByte(fam, '-'); k > 0 {
+							fam = fam[:k]
+						}
+						fmt.Printf("MISMATCH-KEY free-running-run-hangs|family=%s\nMISMATCH program %s (GOMAXPROCS=%d ctx=%v iteration %d) did not return within 60 s\n%s\n", fam, p.Name, procs, withCtx, i, p.Src)
+						os.Exit(1)
+					}
 					if cancel != nil {
 						cancel()
 					}
